@@ -369,12 +369,16 @@ func ruleOutlinkFields(r *core.Reporter) {
 		{pkgHQ, "producerReceiver", hqURL, []want{
 			{"Value", endsWith(".GetURL().Raw"), "item.GetURL().Raw"},
 			{"Via", endsWith(".GetSeedVia()"), "item.GetSeedVia()"},
-			{"Path", func(v ssa.Value, item string) bool { return v != nil && ir.Path(v) == "hq.hopsToPath("+item+".GetURL().GetHops())" }, "hopsToPath(item.GetURL().GetHops())"},
+			{"Path", func(v ssa.Value, item string) bool {
+				return v != nil && ir.Path(v) == "hq.hopsToPath("+item+".GetURL().GetHops())"
+			}, "hopsToPath(item.GetURL().GetHops())"},
 		}},
 		{pkgLQ, "producerReceiver", lqURL, []want{
 			{"Value", endsWith(".GetURL().Raw"), "item.GetURL().Raw"},
 			{"Via", endsWith(".GetSeedVia()"), "item.GetSeedVia()"},
-			{"Hops", func(v ssa.Value, item string) bool { return v != nil && ir.Path(v) == "int64("+item+".GetURL().GetHops())" }, "int64(item.GetURL().GetHops())"},
+			{"Hops", func(v ssa.Value, item string) bool {
+				return v != nil && ir.Path(v) == "int64("+item+".GetURL().GetHops())"
+			}, "int64(item.GetURL().GetHops())"},
 		}},
 		{pkgHQ, "finisherReceiver", hqURL, []want{{"ID", endsWith(".GetID()"), "item.GetID()"}}},
 		{pkgLQ, "finisherReceiver", lqURL, []want{{"ID", endsWith(".GetID()"), "item.GetID()"}}},
